@@ -457,8 +457,12 @@ fn worker(args: &Args, from: usize, to: usize) -> i32 {
             None => break,
         };
         let imp = run_one(&tree, &sane_model);
-        let keep_model = imp["outcome"] != "rejected-at-load" && (imp["outcome"] != "ok" || imp["non_finite_at"] != Value::Null || imp["loads_back"] == false || k % 50 == 0);
-        let line = json!({"op": "noop", "label": label, "edits": desc, "impl": imp, "model": if keep_model { tree } else { Value::Null }});
+        // one sane model in three (all of them when something is wrong) also goes to the Lean driver: sanity test of the
+        // finiteness theorem + the model's own list of failed divisions
+        let to_driver = imp["outcome"] == "ok" && imp["sane"] == true && (k % 3 == 0 || imp["non_finite_at"] != Value::Null);
+        let keep_model = to_driver
+            || (imp["outcome"] != "rejected-at-load" && (imp["outcome"] != "ok" || imp["non_finite_at"] != Value::Null || imp["loads_back"] == false || k % 50 == 0));
+        let line = json!({"op": if to_driver { "saneu" } else { "noop" }, "label": label, "edits": desc, "impl": imp, "model": if keep_model { tree } else { Value::Null }});
         let mut o = out.lock();
         writeln!(o, "C14CASE {}", serde_json::to_string(&line).unwrap()).ok();
         o.flush().ok();
